@@ -172,6 +172,8 @@ type vfC16World struct {
 	qseq    int64
 	filt    map[string]bool
 	timeout bool // a wait for the expected state has expired in this scenario
+	scope     *vfScope
+	debounced int32 // direct mode: a debounced ring refresh has been requested
 }
 
 var vfC16Tokens = map[string][]string{}
@@ -262,10 +264,21 @@ func vfC16NewWorld(sc *vfC16Scenario) (*vfC16World, error) {
 	}
 	w.s = s
 	if sc.Mode == "direct" {
-		// same refresh function, shorter debounce interval: breadth (the 1 s debouncers are
-		// exercised by the wire-mode scenarios)
+		// Breadth: the same refresh function behind a debouncer whose interval never elapses
+		// during a scenario; the harness lets the interval "elapse" itself, right after the
+		// batch of events that asked for the refresh has been handled (refreshNow), which is
+		// the order the 1 s intervals of the driver produce.  The real intervals are
+		// exercised by the wire-mode scenarios.
 		old := s.ringRefresher
-		s.ringRefresher = newRefreshDebouncer(10*time.Millisecond, func() error { return refreshRing(s.hostSource) })
+		nd := newRefreshDebouncer(time.Hour, func() error { return refreshRing(s.hostSource) })
+		w.scope = vfNewScope()
+		w.scope.OnEvent = func(point string, obj interface{}, str string, a int, err error) {
+			if point == "d_debounce" {
+				atomic.StoreInt32(&w.debounced, 1)
+			}
+		}
+		w.scope.Bind(nd)
+		s.ringRefresher = nd
 		vfWithin(2*time.Second, old.stop)
 	}
 	return w, nil
@@ -273,6 +286,9 @@ func vfC16NewWorld(sc *vfC16Scenario) (*vfC16World, error) {
 
 func (w *vfC16World) close() {
 	vfWithin(3*time.Second, w.s.Close)
+	if w.scope != nil {
+		w.scope.Unbind(w.s.ringRefresher)
+	}
 	for _, n := range w.nodes {
 		n.CloseAll()
 	}
@@ -287,11 +303,24 @@ func (w *vfC16World) project(withQueries bool) *vfC16Rec {
 		r.Hosts = append(r.Hosts, vfC16Host{ID: nm.I(h.HostID()), Addr: nm.A(h.ConnectAddress()), Up: h.IsUp()})
 	}
 	sort.Slice(r.Hosts, func(i, j int) bool { return r.Hosts[i].ID < r.Hosts[j].ID })
+	// lookup by id: every id of the universe and every id the ring lists
+	uuids, seen := []string{}, map[string]bool{}
 	for _, i := range nm.ids {
-		if h := s.ring.getHost(vfC16UUID(i)); h != nil {
-			r.ByID = append(r.ByID, vfC16PA{ID: i, Addr: nm.A(h.ConnectAddress())})
+		uuids = append(uuids, vfC16UUID(i))
+	}
+	for _, h := range s.ring.allHosts() {
+		uuids = append(uuids, h.HostID())
+	}
+	for _, u := range uuids {
+		if seen[u] {
+			continue
+		}
+		seen[u] = true
+		if h := s.ring.getHost(u); h != nil {
+			r.ByID = append(r.ByID, vfC16PA{ID: nm.I(u), Addr: nm.A(h.ConnectAddress())})
 		}
 	}
+	sort.Slice(r.ByID, func(i, j int) bool { return r.ByID[i].ID < r.ByID[j].ID })
 	for _, a := range nm.addrs {
 		if h, ok := s.ring.getHostByIP(vfC16IP(a)); ok {
 			id := "none"
@@ -506,7 +535,15 @@ func (w *vfC16World) exec(st *vfC16Step) (errs string, pan string) {
 					frames = append(frames, &topologyChangeEventFrame{change: e.Kind, host: ip, port: 9042})
 				}
 			}
+			atomic.StoreInt32(&w.debounced, 0)
 			w.s.handleNodeEvent(frames)
+			if atomic.SwapInt32(&w.debounced, 0) == 1 {
+				// the debounce interval elapses
+				ok, _ := vfWithin(8*time.Second, func() { <-w.s.ringRefresher.refreshNow() })
+				if !ok {
+					return "hang", ""
+				}
+			}
 		}
 	case "nodefail":
 		w.setTruth(st.Rows)
@@ -515,6 +552,11 @@ func (w *vfC16World) exec(st *vfC16Step) (errs string, pan string) {
 	case "noderecover":
 		w.setTruth(st.Rows)
 		w.setDown(st.Addr, false)
+		if st.Addr == "a0" && w.sc.Mode == "direct" {
+			// the control connection's heartbeat (1 s period) notices and reconnects; direct
+			// mode does not wait for the period to elapse
+			vfWithin(8*time.Second, w.s.control.reconnect)
+		}
 	case "ctllost":
 		// the control connection (and every other connection to the control node) is cut; the
 		// node stays reachable
@@ -577,6 +619,11 @@ func vfC16Run(sc *vfC16Scenario, out *vfNDJSON) (steps int, timeouts int, err er
 		steps++
 		if pan != "" {
 			break
+		}
+		if w.timeout {
+			// the state the model expects was not reached in time: the recorded state is judged
+			// by TLC; what follows from it is not executed
+			return steps, 1, nil
 		}
 	}
 	// late effects (a refresh or a pool goroutine still under way): one more look
